@@ -127,7 +127,7 @@ func (e *Env) GetEnvFromPath(path []string) (*Env, error) {
 		if ok {
 			var module *Env
 			module, ok = value.Interface().(*Env)
-			if ok {
+			if ok && module != nil {
 				e = module
 				break
 			}
@@ -144,8 +144,10 @@ func (e *Env) GetEnvFromPath(path []string) (*Env, error) {
 		value, ok = e.values[path[i]]
 		e.rwMutex.RUnlock()
 		if ok {
-			e, ok = value.Interface().(*Env)
-			if ok {
+			var module *Env
+			module, ok = value.Interface().(*Env)
+			if ok && module != nil {
+				e = module
 				continue
 			}
 		}
